@@ -245,7 +245,13 @@ def to_model(data_file: typing.IO, _config = None, progress_callback=lambda _: N
           .replace(r"{italic}", r"<italic>")\
           .replace(r"{/italic}", r"</italic>")\
           .replace(r"{underline}", r"<underline>")\
-          .replace(r"{/underline}", r"</underline>")
+          .replace(r"{/underline}", r"</underline>")\
+          .replace(r"{b}", r"<b>")\
+          .replace(r"{/b}", r"</b>")\
+          .replace(r"{i}", r"<i>")\
+          .replace(r"{/i}", r"</i>")\
+          .replace(r"{u}", r"<u>")\
+          .replace(r"{/u}", r"</u>")
 
         parser = _TextParser(current_p, line_index)
         parser.feed(subtitle_text)
